@@ -492,7 +492,7 @@ class C20(Check):
         c = {}
         c['debug'] = rng.random() < .2
         c['failing'] = rng.random() < .12
-        c['head'] = rng.random() < .06
+        c['head'] = rng.random() < .1
         c['accept'] = rng.choice([None, None, None, '', 'text/html', 'application/json', 'application/json',
                                   'application/json; q=1', 'application/jsonx', 'text/html, application/json',
                                   ' application/json', gen_text(rng, 3)])
@@ -507,7 +507,7 @@ class C20(Check):
         c['msg'] = gen_text(rng, 5)
         c['msg2'] = gen_text(rng, 4)
         c['tb'] = 'Traceback (most recent call last):\n' + gen_text(rng, 8)
-        c['code'] = rng.choice([400, 401, 403, 404, 418, 500, 503, 599, 299, 777])
+        c['code'] = rng.choice([400, 401, 403, 404, 418, 500, 503, 599, 299, 777, 101, 199, 204, 304])
         c['text'] = rng.choice([None, '', gen_text(rng, 5)])
         prefix = {'nf': '/zz', 'na': '/post/', 'crash': '/crash/', 'hook': '/' + rng.choice(['zz', 'ok/', 'post/']),
                   'badpath': '/' + rng.choice(['zz', 'ok/', 'crash/']), 'reqerr': '/reqerr/', 'json': '/json/',
@@ -590,7 +590,7 @@ class C20(Check):
                 f'{urlenv_args(c["env"], fp)} {oc} {int(hfail)} {hs(d1)} {hs(c["tb"])}')
         ans = f'status={hs(status)} ctype={hs(ctype)} body={hb(body)}'
         self.bump('serve:' + kind + ':' + status.split(' ')[0] + (':json' if 'json' in ctype else ':html')
-                  + (':critical' if status == '500 INTERNAL SERVER ERROR' else ''))
+                  + (':critical' if status == '500 INTERNAL SERVER ERROR' else '') + (':head' if c['head'] else ''))
         sample = dict(c)
         sample['case'] = 'serve'
         return line, ans, sample
